@@ -38,7 +38,7 @@ SIMPLIFY = {"o": lambda v: "pass" if not v.startswith("<") else None, "bg": "nul
 WATCHDOG_S = {"quick": 900, "thorough": 4 * 3600}
 
 KINDS = ("stdout", "stderr", "log")
-LEVELS = {"INFO": logging.INFO, "WARNING": logging.WARNING, "ERROR": logging.ERROR}
+LEVELS = {"DEBUG": logging.DEBUG, "INFO": logging.INFO, "WARNING": logging.WARNING, "ERROR": logging.ERROR}
 
 
 class Sentinel(io.StringIO):
@@ -86,7 +86,9 @@ def prepare(prog, case):
 
 def log_captured(cfg, level_name, logger):
     """Is a record captured by behave's log capture under this configuration?"""
-    level = LEVELS[cfg.get("logging_level") or "INFO"]
+    # the documented before_all idiom `context.config.setup_logging(level=...)` re-assigns
+    # config.logging_level "NEEDED FOR: behave.log_capture.LoggingCapture" (configuration.py)
+    level = LEVELS[cfg.get("setup_level") or cfg.get("logging_level") or "INFO"]
     if LEVELS[level_name] < level:
         return False
     flt = cfg.get("logging_filter")
@@ -116,6 +118,9 @@ def check(case):
         extra.append("--logging-filter=%s" % cfg["logging_filter"])
     from ..harness import make_config
     config = make_config(cfg, extra_args=extra)
+    setup_level = case.get("setup_level") if cap["log"] else None
+    if setup_level:
+        cfg["setup_level"] = setup_level
     sent_out, sent_err = Sentinel(), Sentinel()
     identity = []       # (where, ident, stdout ok, stderr ok)
     logstate = []       # (hook name, ident, level, foreign handler ids)
@@ -125,6 +130,8 @@ def check(case):
     def observer(kind, name, context, arg):
         if kind != "hook":
             return
+        if name == "before_all" and setup_level:
+            context.config.setup_logging(level=LEVELS[setup_level])
         if name in ("before_step", "after_step"):
             if hook_emit:
                 scen = context.scenario.name
@@ -285,6 +292,8 @@ def check(case):
         res.label("step-hook-fault")
     if cfg.get("logging_level") or cfg.get("logging_filter"):
         res.label("logging-level/filter")
+    if setup_level:
+        res.label("setup_logging-in-before_all")
     if any(o == "interrupt" for f, i in insts for o in [step_outcome(s, i["rowdict"]) for s in all_steps_of(f, i)]):
         res.label("interrupt")
     if any(s.get("o") == "nest" for f in prog["features"] for it in f["items"] if it["k"] == "s" for s in it["steps"]):
@@ -382,8 +391,10 @@ def random_case(draw):
         prog["cfg"]["logging_level"] = draw(st.sampled_from(["INFO", "WARNING", "ERROR"]))
         if draw(st.booleans()):
             prog["cfg"]["logging_filter"] = draw(st.sampled_from(["vf", "-vf", "other"]))
-        case["levels"] = draw(st.lists(st.sampled_from(["INFO", "WARNING", "ERROR"]), min_size=1, max_size=3))
+        case["levels"] = draw(st.lists(st.sampled_from(["DEBUG", "INFO", "WARNING", "ERROR"]), min_size=1, max_size=3))
         case["loggers"] = draw(st.lists(st.sampled_from(["vf", "other"]), min_size=1, max_size=2))
+        if draw(st.booleans()):
+            case["setup_level"] = draw(st.sampled_from(["DEBUG", "INFO", "WARNING", "ERROR"]))
     elif not prog["cfg"]["capture_log"]:
         case["levels"] = draw(st.lists(st.sampled_from(["WARNING", "ERROR"]), min_size=1, max_size=2))
     # step-hook faults
@@ -409,7 +420,7 @@ def explore(rec):
 
 def required_labels(tier):
     return ["capture:%d%d%d" % (a, b, c) for a in (0, 1) for b in (0, 1) for c in (0, 1)] + \
-           ["hook-emit", "failing-not-first", "step-hook-fault", "logging-level/filter", "interrupt", "nested-steps", "cli"]
+           ["hook-emit", "failing-not-first", "step-hook-fault", "logging-level/filter", "setup_logging-in-before_all", "interrupt", "nested-steps", "cli"]
 
 
 KNOWN_PREDICATES = {}
